@@ -50,7 +50,7 @@ def _fault(rng):
         else:
             rf = rng.pick(REAL)
             rs, _ = domains.draw(rng, rf)
-            inner.append({'k': 'one', 'name': rf, 'q': 0, 'a': rs})
+            inner.append({'k': 'one', 'name': rf, 'q': rng.pick([0, 0, 0, 3]), 'a': rs})
     for _ in range(rng.pick([0, 0, 1, 2])):
         inner.insert(rng.randrange(len(inner) + 1), _unrelated(rng))
     return {'k': 'sys', 'name': 'MACH_vmfault', 's': s, 'e': e, 'in': inner}
@@ -61,7 +61,12 @@ def _launch(rng, depth=0):
     base = rng.randrange(1, 1 << 20) << 12
     for _ in range(rng.pick([0, 1, 2, 3, 5, 8])):
         addr = base + rng.pick([0, 0, 0x1000, 0x2000, 0x3000, 1, rng.randrange(0, 1 << 20)])
-        inner.append(worlds.op_imap(rng, rng.randbytes(16).hex(), addr, shared=rng.chance(0.35)))
+        m_ = worlds.op_imap(rng, rng.randbytes(16).hex(), addr, shared=rng.chance(0.35))
+        m_['q'] = rng.pick([0, 0, 0, 3])          # NONE- or ALL-qualified: either way a nested single record
+        inner.append(m_)
+        if rng.chance(0.15):
+            # the image is unmapped again inside the launch (same identity and address): the map record was still nested
+            inner.append({'k': 'one', 'name': 'DYLD_uuid_unmap_a', 'q': 0, 'a': list(m_['a'])})
     for _ in range(rng.pick([0, 0, 1, 2])):
         inner.insert(rng.randrange(len(inner) + 1), _unrelated(rng))
     if depth == 0 and rng.chance(0.15):
@@ -78,7 +83,11 @@ def _sample(rng, tid):
     extra = [_unrelated(rng) for _ in range(rng.pick([0, 0, 1, 2]))]
     if rng.chance(0.1):
         extra.append(_fault(rng))
-    return worlds.op_sample(rng, flags=flags, thd=thd, uhdr=uhdr, udata=rows, extra=extra)
+    op = worlds.op_sample(rng, flags=flags, thd=thd, uhdr=uhdr, udata=rows, extra=extra)
+    for sub in op['in']:
+        if sub.get('k') == 'one' and sub.get('name', '').startswith('PERF_') and rng.chance(0.15):
+            sub['q'] = 3          # an ALL-qualified nested record is still that record
+    return op
 
 
 def generate(rng, index, tier):
